@@ -154,6 +154,26 @@ class Program:
         self.adts.update(self.lib.adts)
         self.adts.update(self.bin.adts)
         self._cg = None
+        # new helpers (and closures of internal iteration) that were spliced into every place that runs them: the shape rules see
+        # their content inside the callers and need not judge them a second time on their own
+        spliced = {h for _c, h in (getattr(self.lib, "inlined", []) + getattr(self.bin, "inlined", []))}
+        still_called = set()
+        for f_ in self.fns.values():
+            if f_.body is not None:
+                for _b, t_ in f_.body.all_calls():
+                    fr_ = (t_.get("func") or {}).get("fn") or {}
+                    still_called.add(fr_.get("rdef") or fr_.get("def"))
+                    still_called.add(fr_.get("def"))
+        self.absorbed = {h for h in spliced if h not in still_called}
+
+    def is_absorbed(self, f):
+        """f is a new helper (or a closure of internal iteration) whose body was spliced into every place that runs it.  Closures
+        *inside* such a helper are not absorbed: nothing else shows their content."""
+        return f.id in self.absorbed
+
+    def shape_fns(self):
+        """the functions a shape rule iterates over: everything except absorbed helpers (inlined view only)"""
+        return [f for f in self.fns.values() if not self.is_absorbed(f)]
 
     def fn(self, fid):
         return self.fns[fid]
